@@ -181,6 +181,94 @@ Definition svc_update_il (st : store) (i : sid) (ttl sp now : Z) (d1 : list Z) (
       else (st1, Some (resp_of mn now))
   end.
 
+(* ---------- LoadMinServiceGCSafePoint at the granularity of its single storage operations ----------
+   What can happen between and to the storage operations of one LoadMin call: the LoadRange can fail; before the loop
+   looks at the entry under key k, REST deletes (no server lock) can have removed other services (pre_dels); the repair
+   save of a finite gc_worker entry can fail (then LoadMin returns the error) or be applied although it reports an error;
+   the Remove of an expired entry can fail - its error is ignored by the code, the loop goes on; the final (re)creation of
+   gc_worker's entry can fail.  None = LoadMin returned an error. *)
+Record lm_step := LmStep { pre_dels : list Z; rep_o : outcome; rem_o : outcome }.
+Record lm_env := LmEnv { lr_o : outcome; at_key : Z -> lm_step; init_o : outcome }.
+Definition quiet_step : lm_step := LmStep [] Ok Ok.
+Definition quiet_env : lm_env := LmEnv Ok (fun _ => quiet_step) Ok.
+
+Definition init_gcw_x (o : outcome) (v : Z) (st : store) : store * option entry :=
+  match o with
+  | Ok => (fst (init_gcw v st), Some (snd (init_gcw v st)))
+  | ErrNotApplied => (st, None)
+  | ErrApplied => (fst (init_gcw v st), None)
+  end.
+
+Fixpoint scan_x (env : Z -> lm_step) (now : Z) (es : list (Z * entry)) (st : store) (has : bool) (mn : option entry)
+  : store * option (bool * option entry) :=
+  match es with
+  | [] => (st, Some (has, mn))
+  | (k, e) :: r =>
+      let x := env k in
+      let st0 := rest_dels (pre_dels x) st in
+      let fix_it := is_gcw (e_text e) && negb (e_exp e =? maxI64) in
+      let e1 := if fix_it then Entry (e_text e) maxI64 (e_sp e) else e in
+      let has1 := has || is_gcw (e_text e) in
+      let go st1 :=
+        if e_exp e1 <? now
+        then scan_x env now r (match rem_o x with ErrNotApplied => st1 | _ => st_remove (KSvc k) st1 end) has1 mn
+        else scan_x env now r st1 has1 (if e_sp e1 <? min_sp mn then Some e1 else mn) in
+      if fix_it then
+        match rep_o x with
+        | Ok => go (st_save (KSvc 0) e1 st0)
+        | ErrNotApplied => (st0, None)
+        | ErrApplied => (st_save (KSvc 0) e1 st0, None)
+        end
+      else go st0
+  end.
+
+Definition load_min_x (x : lm_env) (now : Z) (st : store) : store * option entry :=
+  match lr_o x with
+  | Ok =>
+      match svcs st with
+      | [] => init_gcw_x (init_o x) 0 st
+      | es =>
+          match scan_x (at_key x) now es st false None with
+          | (st1, None) => (st1, None)
+          | (st1, Some (has, mn)) =>
+              match mn with
+              | None => init_gcw_x (init_o x) 0 st1
+              | Some m => if has then (st1, Some m) else init_gcw_x (init_o x) (e_sp m) st1
+              end
+          end
+      end
+  | _ => (st, None)
+  end.
+
+(* UpdateServiceGCSafePoint with all of it: x = what happens to the first LoadMin, d1/o as in svc_update_il *)
+Definition svc_update_x (st : store) (i : sid) (ttl sp now : Z) (x : lm_env) (d1 : list Z) (o : outcome) : store * option resp :=
+  match (if ttl <=? 0 then remove_service i st else Some st) with
+  | None => (st, None)
+  | Some st0 =>
+      match load_min_x x now st0 with
+      | (st1, None) => (st1, None)
+      | (st1, Some mn) =>
+          if (0 <? ttl) && (e_sp mn <=? sp) then
+            let exp := if maxI64 - now <=? ttl then maxI64 else now + ttl in
+            let E := Entry (text_of i) exp sp in
+            match save_service i E st1 with
+            | None => (st1, None)
+            | Some _ =>
+                let st1' := rest_dels d1 st1 in
+                match o with
+                | ErrNotApplied => (st1', None)
+                | ErrApplied => (st_save (key_of i) E st1', None)
+                | Ok =>
+                    let st2 := st_save (key_of i) E st1' in
+                    if text_eqb (text_of i) (e_text mn)
+                    then let '(st3, mn') := load_min now st2 in (st3, Some (resp_of mn' now))
+                    else (st2, Some (resp_of mn now))
+                end
+            end
+          else (st1, Some (resp_of mn now))
+      end
+  end.
+
 (* ---------- is UpdateGCSafePoint's load..save section mutually exclusive? read off the skeleton ---------- *)
 Fixpoint locked_before (f : string) (held : bool) (l : list ev) : bool :=
   match l with
@@ -277,6 +365,8 @@ Inductive op :=
 | OSvc (i : sid) (ttl sp now lo hi : Z)  (* UpdateServiceGCSafePoint; now = the TSO time the call used (inferred), [lo,hi] = wall clock bracket *)
 | OSvcIl (i : sid) (ttl sp now lo hi : Z) (d1 : list Z) (o : outcome)
                                          (* UpdateServiceGCSafePoint whose own save is parked: REST deletes of d1 run, then the save gets outcome o *)
+| OSvcX (i : sid) (ttl sp now lo hi : Z) (x : lm_env) (d1 : list Z) (o : outcome)
+                                         (* the same with storage faults / REST deletes at the single storage operations of its first LoadMin *)
 | OApiDel (i : sid)
 | OSeed (i : sid) (exp sp : Z).           (* raw JSON entry put under the id's key, bypassing the handlers *)
 
@@ -364,6 +454,11 @@ Definition run_op1 (rs : rstate) (o : op) : rstate * obs :=
       if (now <? lo - clock_slack) || (hi + clock_slack <? now) then (rs, BBad)
       else
         let '(st', r) := svc_update_il (sto s) i ttl sp now d1 oc in
+        lift rs (set_sto s st', match r with Some x => BMin (r_text x) (r_ttl x) (r_sp x) | None => BErr end)
+  | OSvcX i ttl sp now lo hi x d1 oc =>
+      if (now <? lo - clock_slack) || (hi + clock_slack <? now) then (rs, BBad)
+      else
+        let '(st', r) := svc_update_x (sto s) i ttl sp now x d1 oc in
         lift rs (set_sto s st', match r with Some x => BMin (r_text x) (r_ttl x) (r_sp x) | None => BErr end)
   | OApiDel i =>
       match remove_service i (sto s) with Some st => lift rs (set_sto s st, BUnit) | None => (rs, BErr) end
@@ -495,6 +590,20 @@ Definition mon_svc1 (pre : list entry) (o : op) (b : obs) (post : list entry) : 
       then Some "C15:gc-worker-entry-missing-or-finite"
       else if negb (forallb (live_b now) post)
       then Some "C15:expired-entry-survived"
+      else None
+  | OSvcX i ttl sp now lo hi _ _ _, BMin mt mttl msp =>
+      if ((now <? lo - clock_slack) || (hi + clock_slack <? now))%Z
+      then Some "C15:answered-ttl-inconsistent-with-stored-expiry"
+      else if negb (forallb (fun e => negb (live_b now e) || (msp <=? e_sp e)%Z) post)
+      then Some "C15:min-above-live-service"
+      else if negb (existsb (fun e => is_gcw (e_text e) && (e_exp e =? maxI64)%Z) post)
+      then Some "C15:gc-worker-entry-missing-or-finite"
+      else None
+  | OSvcX _ _ _ _ _ _ _ _ _, BErr =>
+      (* a failed call must not take gc_worker's never-expiring entry away *)
+      if existsb (fun e => is_gcw (e_text e) && (e_exp e =? maxI64)%Z) pre
+         && negb (existsb (fun e => is_gcw (e_text e) && (e_exp e =? maxI64)%Z) post)
+      then Some "C15:gc-worker-entry-lost-by-failed-call"
       else None
   | _, _ => None
   end.
